@@ -10,9 +10,9 @@ for d in $root/*/m*; do
   if [ $# -gt 0 ] && [[ ! " $* " =~ " $id " ]]; then continue; fi
   [ -f $d/patch.diff ] || continue
   cd $wt && git checkout -q -- . 
-  PYTHONPATH=/tmp/sktime_env:$wt timeout 600 /venv/bin/python $d/demo.py $wt >/dev/null 2>&1; clean=$?
+  PYTHONPATH=/verif/compat:$wt timeout 600 /venv/bin/python $d/demo.py $wt >/dev/null 2>&1; clean=$?
   if ! git apply $d/patch.diff 2>/dev/null; then echo -e "$id\t$m\tPATCH-DOES-NOT-APPLY" >> $out; continue; fi
-  PYTHONPATH=/tmp/sktime_env:$wt timeout 600 /venv/bin/python $d/demo.py $wt >/dev/null 2>&1; patched=$?
+  PYTHONPATH=/verif/compat:$wt timeout 600 /venv/bin/python $d/demo.py $wt >/dev/null 2>&1; patched=$?
   tests=$(cd $wt && /venv/bin/python -m pytest -q -p no:cacheprovider --timeout=900 --continue-on-collection-errors 2>&1 | tail -1 | sed 's/ in [0-9.]*s.*//')
   git checkout -q -- .
   echo -e "$id\t$m\tclean=$clean\tpatched=$patched\t$tests" >> $out
